@@ -3,9 +3,10 @@
 use crate::core::Check;
 
 pub mod c02;
+pub mod c03;
 
 pub fn all() -> Vec<&'static dyn Check> {
-    vec![&c02::C02]
+    vec![&c02::C02, &c03::C03]
 }
 
 pub fn by_id(id: &str) -> Option<&'static dyn Check> {
